@@ -10,6 +10,11 @@ def cmd_gentables(argv):
     text, info, *_ = translate.generate()
     path = translate.write_gentables(text)
     print(path)
+    try:
+        print(translate.write_genlib(translate.generate_lib()))
+    except translate.TranslateError as e:
+        # reported by the property checks; setup keeps the previous GenLib.v
+        common.log("GenLib translation failed: %s" % e)
     return 0
 
 
